@@ -116,10 +116,10 @@ const (
 var c16OutcomeNames = [nOutcomes]string{"ok", "err", "short", "skipped"}
 
 type c16Stats struct {
-	progs, steps, finalDrains, aliasChecked, errUnchanged, maxLen, maxOps, dangerousRun int64
-	ops                                                                                 [c16NOps][nOutcomes]int64
-	inits                                                                               [8]int64
-	nclass                                                                              [17]int64
+	progs, steps, finalDrains, aliasChecked, keptChecks, errUnchanged, maxLen, maxOps, dangerousRun int64
+	ops                                                                                             [c16NOps][nOutcomes]int64
+	inits                                                                                           [8]int64
+	nclass                                                                                          [17]int64
 }
 
 var c16stats c16Stats
@@ -131,7 +131,8 @@ func init() {
 		rule: "a case is a byte program (header + 3-byte instructions) interpreted as container operations on up to 3 containers and on a []byte model; " +
 			"all 1-instruction programs x 8 creation modes x all 256 argument bytes, all 2-instruction programs over the per-operation argument classes " +
 			"(lengths {0,1,2,3,10,held,held-1,held+1,held/2,-1,-held,minint,maxint,2^62,2^50,held+1000}, numbers at every varint/width boundary and relative to the held length, " +
-			"slices nil/empty/1..1000 bytes random/0xff/0x80/small/varint-prefixed), 3-instruction programs over a reduced alphabet, and PRNG programs of 1..40 instructions in 4 styles. " +
+			"slices nil/empty/1..1000 bytes random/0xff/0x80/small/varint-prefixed), 3-instruction programs over a reduced alphabet, every pair and triple of small (1..10 byte) reads on a container of ten 1..3 byte compartments, and PRNG programs of 1..40 instructions in 5 styles (one: many tiny compartments then many small reads). " +
+			"Every byte slice a container returns is kept and re-compared with its content at return time after every later instruction and at the end. " +
 			"distinct = distinct programs; non-trivial = at least one instruction was executed and every executed instruction's results and the content of the containers it touched were compared with the model",
 		finish: c16Finish,
 	}
@@ -212,6 +213,7 @@ type c16Run struct {
 	fail    *c16Fail
 	buf     bytes.Buffer
 	lastOut int
+	kept    []c16Kept
 }
 
 func (p *c16Run) tr(format string, a ...any) {
@@ -253,6 +255,44 @@ func panicKind(msg string) string {
 		return "out-of-memory"
 	default:
 		return "other"
+	}
+}
+
+// c16Kept is a byte slice a container handed out, with what it held at that moment.
+type c16Kept struct {
+	op   string
+	step int
+	view []byte
+	was  []byte
+}
+
+const c16KeepEachStep = 1024 // longer results are re-compared only at the end of the history
+
+// keep remembers a returned slice: everything a container has handed out must stay what
+// it was, whatever is done with the container afterwards.
+func (p *c16Run) keep(op string, got []byte) {
+	if len(got) == 0 {
+		return
+	}
+	p.kept = append(p.kept, c16Kept{op: op, step: p.step, view: got, was: cat(got)})
+}
+
+// recheck compares every kept result with its content at return time.
+func (p *c16Run) recheck(after string, final bool) {
+	if p.fail != nil {
+		return
+	}
+	for i := range p.kept {
+		k := &p.kept[i]
+		if !final && len(k.view) > c16KeepEachStep {
+			continue
+		}
+		c16stats.keptChecks++
+		if !bytes.Equal(k.view, k.was) {
+			p.failf("C16:result-changed-later:"+k.op, map[string]any{"returned_by": k.op, "returned_at_step": k.step, "changed_by": after, "was_hex": hex.EncodeToString(trunc(k.was, 256)), "now_hex": hex.EncodeToString(trunc(k.view, 256))},
+				"the %d bytes %s returned by %s at step %d read %s after the later %s: a result handed out earlier was overwritten", len(k.was), c16Short(k.was), k.op, k.step, c16Short(k.view), after)
+			return
+		}
 	}
 }
 
@@ -717,6 +757,7 @@ func (p *c16Run) exec(op int, sel, arg byte) {
 		if p.guard(name, t, func() { got = t.c.CompileData() }) {
 			break
 		}
+		p.keep(name, got)
 		if !bytes.Equal(got, t.m) {
 			wrong("wrong-result", "", "CompileData() returned %d bytes %s, %d bytes %s are held", len(got), c16Short(got), len(t.m), c16Short(t.m))
 		}
@@ -729,6 +770,7 @@ func (p *c16Run) exec(op int, sel, arg byte) {
 		if p.guard(name, t, func() { got = t.c.Peek(n) }) {
 			break
 		}
+		p.keep(name, got)
 		p.lastOut = len(got)
 		switch {
 		case len(got) > len(t.m) || !bytes.Equal(got, t.m[:len(got)]):
@@ -795,6 +837,7 @@ func (p *c16Run) exec(op int, sel, arg byte) {
 		if p.guard(name, t, func() { got, err = t.c.Get(n) }) {
 			break
 		}
+		p.keep(name, got)
 		switch {
 		case n > len(t.m):
 			if err == nil {
@@ -821,6 +864,7 @@ func (p *c16Run) exec(op int, sel, arg byte) {
 		if p.guard(name, t, func() { got = t.c.GetAll() }) {
 			break
 		}
+		p.keep(name, got)
 		if !bytes.Equal(got, t.m) {
 			wrong("wrong-result", "", "GetAll() returned %d bytes %s, %d bytes %s are held", len(got), c16Short(got), len(t.m), c16Short(t.m))
 		}
@@ -834,6 +878,7 @@ func (p *c16Run) exec(op int, sel, arg byte) {
 		if p.guard(name, t, func() { got = t.c.GetMax(n) }) {
 			break
 		}
+		p.keep(name, got)
 		k := n
 		if k < 0 {
 			k = 0
@@ -946,6 +991,7 @@ func (p *c16Run) exec(op int, sel, arg byte) {
 		}) {
 			break
 		}
+		p.keep(name, got)
 		if op == opGetNextBlockAsContainer && (nc == nil) != (err != nil) {
 			wrong("wrong-result", "", "GetNextBlockAsContainer returned container=%v error=%v", nc != nil, err)
 			break
@@ -1106,6 +1152,7 @@ func (p *c16Run) exec(op int, sel, arg byte) {
 		}
 		p.observe(p.regs[si], name, false, role)
 	}
+	p.recheck(name, false)
 }
 
 func c16ContLen(c *container.Container) (n int) {
@@ -1164,6 +1211,7 @@ func (p *c16Run) run() {
 		if p.guard("GetAll", r, func() { got = r.c.GetAll() }) {
 			return
 		}
+		p.keep("GetAll", got)
 		if !bytes.Equal(got, r.m) {
 			p.failf("C16:wrong-result:GetAll:final-drain", nil, "draining the container returned %d bytes %s, the model holds %d bytes %s", len(got), c16Short(got), len(r.m), c16Short(r.m))
 			return
@@ -1174,6 +1222,11 @@ func (p *c16Run) run() {
 			return
 		}
 		c16stats.finalDrains++
+	}
+	// ... and nothing that was handed out has changed since
+	p.recheck("GetAll (final drain)", true)
+	if p.fail != nil {
+		return
 	}
 	// aliasing monitor: nothing that was handed in has been modified
 	for _, in := range p.ins {
@@ -1323,7 +1376,7 @@ func c16Reduced(full bool) [][3]byte {
 	return out
 }
 
-var c16Styles = [4][]int{
+var c16Styles = [5][]int{
 	nil, // uniform
 	{opAppend, opAppend, opPrepend, opAppendAsBlock, opPrependAsBlock, opAppendNumber, opPrependNumber, opPrependLength, opGet, opGet, opGetMax,
 		opGetAll, opPeek, opWriteToSlice, opWriteToSlice, opGetNextBlock, opGetNextN64, opCompileData, opReplace, opGetAsContainer},
@@ -1331,6 +1384,41 @@ var c16Styles = [4][]int{
 		opGetNextBlock, opGetNextBlock, opGetNextBlockAsContainer, opGetNextN8, opGetNextN16, opGetNextN32, opGetNextN64, opAppend, opPrepend, opGet, opAppendContainerAsBlock},
 	{opAppend, opPrepend, opAppendContainer, opAppendContainer, opAppendContainerAsBlock, opPeekContainer, opPeekContainer, opGetAsContainer, opGetAsContainer,
 		opGetNextBlockAsContainer, opJSONTransfer, opReinit, opReplace, opUnmarshalJSON, opMarshalJSON, opCompileData, opGetAll, opGet, opWriteToSlice, opAppendAsBlock},
+	nil, // 4: many tiny compartments + small reads (c16GenSmallReads)
+}
+
+// c16TinyAppends are Append/Prepend instructions with 1..3 byte slices.
+var c16TinyArgs = []byte{2, 3, 4, 16 + 2, 32 + 3, 48 + 4, 2, 3}
+
+// c16SmallReads is the alphabet of reads of 1..10 bytes (and the number / block readers,
+// which look ahead up to 10 bytes).
+var c16SmallReads = [][3]byte{
+	{opGet, 4, 1}, {opGet, 4, 10}, {opGet, 4, 13}, {opGet, 4, 14}, {opGet, 4, 16 + 4}, {opGet, 4, 16 + 5}, {opGet, 4, 16 + 7},
+	{opGetMax, 4, 10}, {opGetMax, 4, 13}, {opGetMax, 4, 14}, {opGetMax, 4, 16 + 6}, {opPeek, 4, 10}, {opPeek, 4, 13}, {opPeek, 4, 14}, {opPeek, 4, 16 + 9},
+	{opGetNextN8, 4, 0}, {opGetNextN16, 4, 0}, {opGetNextN32, 4, 0}, {opGetNextN64, 4, 0}, {opGetNextBlock, 4, 0}, {opGetAll, 4, 0},
+	{opPrependNumber, 4, 2}, {opPrependNumber, 4, 4}, {opAppend, 4, 3}, {opPrepend, 4, 2}, {opWriteToSlice, 4, 13},
+}
+
+// c16GenSmallReads: a container made of many 1..3 byte compartments, then a history of
+// many small reads across the compartment boundaries.
+func c16GenSmallReads(r *vlib.Rand) []byte {
+	prog := []byte{vlib.Pick(r, byte(0), 7, 2, 5, 3)}
+	for i := r.Range(6, 24); i > 0; i-- {
+		op := byte(opAppend)
+		if r.Chance(1, 5) {
+			op = opPrepend
+		}
+		prog = append(prog, op, 0x04, c16TinyArgs[r.Intn(len(c16TinyArgs))])
+	}
+	for i := r.Range(4, 30); i > 0; i-- {
+		x := c16SmallReads[r.Intn(len(c16SmallReads))]
+		arg := x[2]
+		if (x[0] == opGet || x[0] == opGetMax || x[0] == opPeek) && r.Chance(1, 2) {
+			arg = byte(16 + r.Range(1, 10)) // 1..10 bytes (modulo what is held)
+		}
+		prog = append(prog, x[0], x[1], arg)
+	}
+	return prog
 }
 
 func c16GenProg(r *vlib.Rand) []byte {
@@ -1340,7 +1428,10 @@ func c16GenProg(r *vlib.Rand) []byte {
 	}
 	prog := make([]byte, 0, 1+3*nops)
 	prog = append(prog, byte(r.Intn(256)))
-	style := r.Intn(4)
+	style := r.Intn(5)
+	if style == 4 {
+		return c16GenSmallReads(r)
+	}
 	for i := 0; i < nops; i++ {
 		var op int
 		if st := c16Styles[style]; st != nil && !r.Chance(1, 6) {
@@ -1446,6 +1537,23 @@ func runC16(c *ctx) {
 			}
 		}
 	}
+	// (3b) a container of ten 1..3 byte compartments, then every pair and triple of small reads
+	tiny := []byte{7}
+	for i := 0; i < 10; i++ {
+		tiny = append(tiny, opAppend, 0x04, c16TinyArgs[i%len(c16TinyArgs)])
+	}
+	for _, x := range c16SmallReads {
+		for _, y := range c16SmallReads {
+			if mine() {
+				c16Case(c, cat(tiny, x[:], y[:]))
+			}
+			for _, z := range c16SmallReads {
+				if mine() {
+					c16Case(c, cat(tiny, x[:], y[:], z[:]))
+				}
+			}
+		}
+	}
 	// (4) PRNG programs
 	r := c.rand("prog")
 	n := c.n(240000, 2400000) / ns
@@ -1461,6 +1569,7 @@ func c16Flush(c *ctx) {
 	b.Count("steps", st.steps)
 	b.Count("final_drains_compared", st.finalDrains)
 	b.Count("input_slices_checked_unmodified", st.aliasChecked)
+	b.Count("returned_slices_rechecked_unchanged", st.keptChecks)
 	b.Count("error_then_content_unchanged_checks", st.errUnchanged)
 	b.Count("dangerous_lengths_executed", st.dangerousRun)
 	b.Max("max_model_length", st.maxLen)
